@@ -7,45 +7,7 @@ from vxlib.rustsrc import Source, Lost
 
 PARSER = 'autosar-data/src/parser.rs'
 
-HDR = ('<?xml version="1.0" encoding="utf-8"?>\n<AUTOSAR xsi:schemaLocation="http://autosar.org/schema/r4.0 AUTOSAR_%s.xsd" '
-       'xmlns="http://autosar.org/schema/r4.0" xmlns:xsi="http://www.w3.org/2001/XMLSchema-instance">')
-
-
-def doc(x, ver='00050'):
-    return (HDR % ver) + '<AR-PACKAGES><AR-PACKAGE><SHORT-NAME>Pkg</SHORT-NAME><ELEMENTS>' + x + '</ELEMENTS></AR-PACKAGE></AR-PACKAGES></AUTOSAR>'
-
-
-SYS = '<SYSTEM><SHORT-NAME>Sys</SHORT-NAME>%s</SYSTEM>'
-OWN_VALID = [doc(''), doc(SYS % ''), doc(SYS % '<DESC><L-2 L="EN">a &amp; b &#65; &#x42;</L-2></DESC>'),
-             doc(SYS % '<CATEGORY>CAT</CATEGORY>'), doc(SYS % '', ver='4-0-1')]
-OWN_DEFECT = [
-    doc('<NOT-AN-ELEMENT/>'),                                   # unknown element
-    doc('<ELEMENTS/>'),                                         # known element, unknown in this context
-    doc(SYS % '<SHORT-NAME>Again</SHORT-NAME>'),                # repeated single-occurrence element
-    doc('<SYSTEM></SYSTEM>'),                                   # missing SHORT-NAME
-    doc('<SYSTEM BLA="1"><SHORT-NAME>Sys</SHORT-NAME></SYSTEM>'),  # unknown attribute
-    doc(SYS % ('<CATEGORY>' + 'C' * 300 + '</CATEGORY>')).replace('<SHORT-NAME>Sys', '<SHORT-NAME>' + 'S' * 200),  # too long
-    doc('<SYSTEM><SHORT-NAME>1abc</SHORT-NAME></SYSTEM>'),      # pattern violation
-    doc(SYS % '<DESC><L-2 L="EN">a &foo; b</L-2></DESC>'),      # malformed entity
-    doc(SYS % '<DESC><L-2 L="XX">a</L-2></DESC>'),              # unknown enum value
-    doc(SYS % '') + '<MORE/>',                                  # data after the root element
-    doc(SYS % '').replace('AUTOSAR_00050.xsd', 'AUTOSAR_4-3-1.xsd'),   # wrong version label
-    doc(SYS % 'stray text'),                                    # character content where forbidden
-    doc(SYS % '<DESC><L-2>a</L-2></DESC>'),                     # missing required attribute
-]
-
-
-def fixtures(repo_dir):
-    """Documents of the repository's own parser tests (working tree): (is_defect, bytes)."""
-    t = open(os.path.join(repo_dir, PARSER), encoding='utf-8').read()
-    i = t.find('#[cfg(test)]')
-    test = t[i:] if i >= 0 else ''
-    out = []
-    for m in re.finditer(r'const (\w+): &str = r#"(.*?)"#;', test, re.S):
-        name, body = m.group(1), m.group(2)
-        defect = re.search(r'test_helper\(\s*%s\.as_bytes\(\)' % name, test) is not None
-        out.append((defect, body.encode('utf-8')))
-    return out
+from vxlib.corpus import OWN_VALID, OWN_DEFECT, fixtures  # noqa
 
 
 def frame_scan(ctx, repo_dir):
